@@ -233,4 +233,160 @@ var RacePrograms = []RaceProg{
 		n++
 		<-done
 	}},
+	{"captured flag read behind && against an unsynchronised write", "flag", func() {
+		flag, ok := false, true
+		done := make(chan bool)
+		go func() {
+			if ok && !flag {
+				_ = 1
+			}
+			done <- true
+		}()
+		flag = true
+		<-done
+	}},
+	{"captured flag behind && that is never evaluated", "", func() {
+		flag, never := false, false
+		done := make(chan bool)
+		go func() {
+			if never && !flag {
+				panic("unreachable")
+			}
+			done <- true
+		}()
+		flag = true
+		<-done
+	}},
+	{"field read behind || against an unsynchronised write", ".y", func() {
+		b := &box{}
+		done := make(chan bool)
+		go func() {
+			if b.n != 0 || b.y > 0 {
+				_ = 1
+			}
+			done <- true
+		}()
+		b.y = 1
+		<-done
+	}},
+	{"flag read in the condition of an if with an init statement", "flag", func() {
+		flag := false
+		var v any = 1
+		done := make(chan bool)
+		go func() {
+			if _, ok := v.(int); ok && !flag {
+				_ = 1
+			}
+			done <- true
+		}()
+		flag = true
+		<-done
+	}},
+	{"field read in an else-if condition", ".y", func() {
+		b := &box{}
+		never := false
+		done := make(chan bool)
+		go func() {
+			if never {
+				_ = 0
+			} else if b.y > 0 {
+				_ = 1
+			}
+			done <- true
+		}()
+		b.y = 1
+		<-done
+	}},
+	{"else-if condition that is never reached", "", func() {
+		b := &box{}
+		always := true
+		done := make(chan bool)
+		go func() {
+			if always {
+				_ = 0
+			} else if b.y > 0 {
+				_ = 1
+			}
+			done <- true
+		}()
+		b.y = 1
+		<-done
+	}},
+	{"send and close of a channel without order", "close-vs-send", func() {
+		c := make(chan int, 1)
+		done := make(chan bool)
+		go func() {
+			c <- 1 // the close below may come first in another schedule: panic
+			done <- true
+		}()
+		<-done
+		<-c
+		go func() { done <- true }()
+		<-done
+		c2 := make(chan int, 1)
+		go func() {
+			select {
+			case c2 <- 1:
+			default:
+			}
+		}()
+		close(c2)
+	}},
+	{"closed flag and send under one mutex (the sender checks the flag)", "", func() {
+		c := make(chan int, 4)
+		var mu sync.Mutex
+		closed := false
+		done := make(chan bool)
+		go func() {
+			for i := 0; i < 2; i++ {
+				mu.Lock()
+				if !closed {
+					select {
+					case c <- i:
+					default:
+					}
+				}
+				mu.Unlock()
+			}
+			done <- true
+		}()
+		mu.Lock()
+		close(c)
+		closed = true
+		mu.Unlock()
+		<-done
+	}},
+	{"closed flag checked under the mutex, send after unlocking", "close-vs-send", func() {
+		c := make(chan int, 4)
+		var mu sync.Mutex
+		closed := false
+		done := make(chan bool)
+		go func() {
+			mu.Lock()
+			ok := !closed
+			mu.Unlock()
+			if ok {
+				defer func() { recover(); done <- true }()
+				select {
+				case c <- 1:
+				default:
+				}
+			}
+			done <- true
+		}()
+		mu.Lock()
+		close(c)
+		closed = true
+		mu.Unlock()
+		<-done
+	}},
+	{"close after the sender has finished (ordered by a channel)", "", func() {
+		c := make(chan int, 2)
+		done := make(chan bool)
+		go func() { c <- 1; c <- 2; done <- true }()
+		<-done
+		close(c)
+		for range c {
+		}
+	}},
 }
